@@ -177,6 +177,32 @@ def _cli(case, pt):
                     bad('json-file', '%s: reference code changed' % fn)
             except Exception as e:
                 bad('json-file-not-json', '%s does not parse: %s' % (fn, e))
+        # selection drops the first / a middle / the last file: the printed list must still be one JSON document
+        hid = os.path.join(d, 'hid')
+        os.mkdir(hid)
+        for pattern in ('HVV', 'VHV', 'VVH', 'HHV', 'HVH', 'VHH', 'HHH'):
+            for f in os.listdir(hid):
+                os.unlink(os.path.join(hid, f))
+            vis = []
+            for i, c in enumerate(pattern):
+                eid = 0x50000100 + i
+                spec = {'eid': eid, 'plid': eid, 'uh': {'sev': 0x40, 'flags': 0x6000 if c == 'H' else 0xA000},
+                        'sections': [{'t': 'PS', 'ascii': codes[i % len(codes)].ljust(32)}]}
+                with open(os.path.join(hid, 'g%d' % i), 'wb') as f:
+                    f.write(pelgen.encode_pel(pelgen.pel_from_spec(spec)))
+                if c == 'V':
+                    vis.append('0x%08X' % eid)
+            for extra in ([], ['-r']):
+                want_ids = list(reversed(vis)) if extra else vis
+                for mode in ('-a', '-l'):
+                    r = clidrv.run_main(['-p', hid, mode] + extra)
+                    try:
+                        v = json.loads(r.stdout)
+                        got = [x['Private Header']['Entry Id'] for x in v] if mode == '-a' else list(v)
+                        if got != want_ids:
+                            out.append({'key': 'C06:filtered-list', 'what': '%s %s with files %s lists %s, expected %s' % (mode, extra, pattern, got, want_ids), 'case': case})
+                    except Exception as e:
+                        out.append({'key': 'C06:filtered-list-not-json', 'what': '%s %s with files %s (H = not selected): output does not parse: %s' % (mode, extra, pattern, e), 'case': case})
         r = clidrv.run_main(['-f', os.path.join(d, 'in', 'f000'), '-E'])
         try:
             x = json.loads(r.stdout)
